@@ -4,6 +4,6 @@ From Clip Require Import base.Geom base.FloatModel base.Winding base.Dist model.
 Require Import ExtrOcamlBasic ExtrOCamlFloats ExtrOCamlInt63.
 Extraction Language OCaml.
 Extraction "m.ml" minkowski areaF is_positive para_quads orient4 minkowski_ub_free
-  check_minkowski check_mink mink_eval mink_fails mink_inside mink_bad in_some in_para scale2
+  check_minkowski check_mink mink_eval mink_fails mink_inside mink_bad in_some in_para scalek wn_some mink_xcheck
   scale_path descale_paths pow10_spec inv_of
   wn wn_paths area2 far_from edges_closed.
